@@ -257,43 +257,49 @@ func mutateFile(orig []byte, mut string, a, b int, rng *core.Rng) []byte {
 		}
 		return f
 	case "name-extra-component":
-		// a name field with one component too many ("A<<B<<C"), in an object of the root or of its first template
-		var rebuild func(raw []byte, depth int) ([]byte, bool)
-		rebuild = func(raw []byte, depth int) ([]byte, bool) {
+		// one name field (the a-th object holding "<<", at the root or inside a template) gets a component too many ("A<<B<<C")
+		var cands [][]int
+		var walk func(raw []byte, path []int, depth int)
+		walk = func(raw []byte, path []int, depth int) {
 			kids, err := chip.ParseTLVs(raw)
 			if err != nil {
-				return raw, false
+				return
 			}
-			var g []byte
-			done := false
-			for _, k := range kids {
+			for i, k := range kids {
 				first := k.Tag
 				for first > 0xFF {
 					first >>= 8
 				}
-				switch {
-				case done:
-					g = append(g, k.Raw...)
-				case first&0x20 != 0 && depth < 2:
-					if sub, ok := rebuild(k.Val, depth+1); ok {
-						g = append(g, chip.EncTLV(k.Tag, sub)...)
-						done = true
-					} else {
-						g = append(g, k.Raw...)
-					}
-				case bytes.Contains(k.Val, []byte("<<")) && k.Tag != 0x5F1F:
-					g = append(g, chip.EncTLV(k.Tag, append(bytes.Clone(k.Val), []byte("<<ZED")...))...)
-					done = true
-				default:
-					g = append(g, k.Raw...)
+				p := append(append([]int{}, path...), i)
+				if first&0x20 != 0 && depth < 2 {
+					walk(k.Val, p, depth+1)
+				} else if bytes.Contains(k.Val, []byte("<<")) && k.Tag != 0x5F1F {
+					cands = append(cands, p)
 				}
 			}
-			return g, done
 		}
-		if g, ok := rebuild(inner, 0); ok {
-			return chip.EncTLV(outerTag, g)
+		walk(inner, nil, 0)
+		if len(cands) == 0 {
+			return f
 		}
-		return f
+		target := cands[a%len(cands)]
+		var rebuild func(raw []byte, path []int) []byte
+		rebuild = func(raw []byte, path []int) []byte {
+			kids, _ := chip.ParseTLVs(raw)
+			var g []byte
+			for i, k := range kids {
+				switch {
+				case i != path[0]:
+					g = append(g, k.Raw...)
+				case len(path) == 1:
+					g = append(g, chip.EncTLV(k.Tag, append(bytes.Clone(k.Val), []byte("<<ZED")...))...)
+				default:
+					g = append(g, chip.EncTLV(k.Tag, rebuild(k.Val, path[1:]))...)
+				}
+			}
+			return g
+		}
+		return chip.EncTLV(outerTag, rebuild(inner, target))
 	case "many-nodes":
 		return chip.EncTLV(outerTag, bytes.Repeat([]byte{0x04, 0x00}, 9000+a%6000))
 	case "tag-zero":
